@@ -154,6 +154,7 @@ type Case struct {
 	EncForms         map[string]int // level -> 0 minimal, 1 indefinite, 2.. non-minimal with k = v-2
 	SIDVariant       issuer.NameVariant
 	NameStyle        int // 0 printable, 1 utf8, 2 bmp CN, 3 multi-valued RDN + extra attributes, 4 an attribute type repeated in separate RDNs (two OUs)
+	HashOrder        int // data group hash list: 0 ascending, 1 descending, 2 rotated, 3 highest first
 	CardSecOwn       int // EF.CardSecurity: 0 signed like the SOD; 1 / 2 signed 400 days earlier / later by a DS certificate of its own whose validity does not contain the SOD's signing time
 	Extra            int // 0 none, 1 CSCA, 2 DS2 after, 3 DS2 before, 4 CSCA + DS2
 	Store            int
@@ -334,6 +335,7 @@ func drawCase(ch chooser, fastBias bool) Case {
 	}
 	c.NameStyle = ch.Weighted("namestyle", 4, 2, 2, 2, 2)
 	c.CardSecOwn = ch.Weighted("cardsec-own-signer-and-time", 2, 1, 1)
+	c.HashOrder = ch.Weighted("hash-list-order", 3, 1, 1, 1)
 	c.Extra = ch.Weighted("extra", 3, 2, 2, 2, 1)
 	c.Store = ch.Weighted("store", 3, 2, 1, 2, 2, 1, 1, 1, 1)
 	c.CardSec = ch.Weighted("cardsec", 3, 1) == 1
@@ -641,7 +643,7 @@ func build(c Case, src issuer.Source) (*world, error) {
 	case 4:
 		extras = [][]byte{genuine.DER, ds2.DER}
 	}
-	o := issuer.SODOptions{LDSVersion: c.LDSVersion, HashNull: c.HashNull, EContentType: eTypes[c.EType],
+	o := issuer.SODOptions{HashOrder: c.HashOrder, LDSVersion: c.LDSVersion, HashNull: c.HashNull, EContentType: eTypes[c.EType],
 		ExtraHashes: map[int][]byte{3: issuer.Digest(c.LDSHash, []byte("fingerprints stay on the chip"))}}
 	o.SID = issuer.SIDForm(c.SID)
 	if !c.SIDVariant.Identity() {
